@@ -67,5 +67,9 @@ def main():
     print("%d mutants, %d not caught" % (len(res), bad))
 
 
+import atexit, shutil as _sh
+atexit.register(lambda: _sh.rmtree(os.path.join(VERIF, "replays", "_scratch"), ignore_errors=True))
+
+
 if __name__ == "__main__":
     main()
